@@ -28,13 +28,22 @@ fn histories(n_ops: usize, max_len: usize) -> Vec<Vec<usize>> {
 
 /// the wrapper's Debug text with the `buffer_data: [...]` field removed
 fn strip_buffer_data(s: &str) -> String {
-    match s.find("buffer_data: [") {
-        Some(i) => match s[i..].find(']') {
-            Some(j) => format!("{}buffer_data: [..]{}", &s[..i], &s[i + j + 1..]),
-            None => s.to_string(),
-        },
-        None => s.to_string(),
+    // both the compact and the pretty form are in the text: strip every occurrence
+    let mut out = String::new();
+    let mut rest = s;
+    while let Some(i) = rest.find("buffer_data: [") {
+        out.push_str(&rest[..i]);
+        out.push_str("buffer_data: [..]");
+        match rest[i..].find(']') {
+            Some(j) => rest = &rest[i + j + 1..],
+            None => {
+                rest = "";
+                break;
+            }
+        }
     }
+    out.push_str(rest);
+    out
 }
 
 /// does `hay` contain a window of `win` consecutive bytes of `secret` (low-entropy windows are ignored)?
@@ -185,7 +194,7 @@ pub fn run(ctx: &Ctx) -> Outcome {
     let mut o = merge(reports);
     extend(&mut o, merge(r2));
     o.counters.insert("secret_windows_visible_before_drop".into(), *present_before.lock().unwrap());
-    o.rule = "explicit-state exploration of short histories per object kind (12 block-mode types, keystream cores, byte-level aliases, buffered CFB) from 2 keys x 3 IVs: in every state reached the Debug text must equal the text of the first state of that type (one string per type); algorithm-name text is stable; zeroize build: drop_in_place in zero-initialised heap storage is the terminal transition and the storage is scanned for any window of min(8,len) bytes of: initial IV, exported state, its encryption (CFB feedback), counter value, integer-encoded nonce chunks, BelT s / s_init, unconsumed keystream in the wrapper buffer (windows with fewer than four distinct byte values ignored; 8-byte windows, plus the 4-byte counter of the 32-bit flavours when it has four distinct non-zero bytes; block size >= 8; harness-cipher configurations only, whose objects are laid out without padding)".into();
+    o.rule = "explicit-state exploration of short histories per object kind (12 block-mode types, keystream cores, byte-level aliases, buffered CFB) from 2 keys x 3 IVs: in every state reached the Debug text (compact `{:?}` and pretty `{:#?}` form) must equal the text of the first state of that type (one string per type); algorithm-name text is stable; zeroize build: drop_in_place in zero-initialised heap storage is the terminal transition and the storage is scanned for any window of min(8,len) bytes of: initial IV, exported state, its encryption (CFB feedback), counter value, integer-encoded nonce chunks, BelT s / s_init, unconsumed keystream in the wrapper buffer (windows with fewer than four distinct byte values ignored; 8-byte windows, plus the 4-byte counter of the 32-bit flavours when it has four distinct non-zero bytes; block size >= 8; harness-cipher configurations only, whose objects are laid out without padding)".into();
     o.configs = cfgs.iter().map(|c| c.name.clone()).collect();
     o.bounds = vec![("history_depth".into(), J::Int(tier.pick(2, 3))), ("zeroize_scan".into(), zeroize.into())];
     o.assumptions = vec![
